@@ -24,7 +24,7 @@ POOL = [
     "y ~ C(k)", "y ~ o", "y ~ C(o)", "y ~ o:x", "y ~ scale(center(x)) + poly(scale(z), 2)", "y ~ (1|g)", "y ~ (x|g)", "y ~ (f|g)",
     "y ~ (0 + f|g)", "y ~ (scale(x)|g)", "y ~ x + (x|g:h)", "y ~ (1|C(k))", "y ~ (center(x) + f|g) + (1|h)", "o ~ x + f",
     "f ~ scale(x)", "o[a] ~ x", "binary(f, 'b') ~ x", "y ~ binary(f) + x", "y ~ f + g + f:g:x", "y ~ bs(x, df=5, intercept=True):g",
-    "y ~ minmax(x) + (minmax(z)|g)", "y ~ I(np.log(x) * z)", "y ~ {center(x) + z}", "y ~ {x / np.sqrt(z)}", "y ~ scale(np.log(x) + z) + I(z - np.exp(x / 10))", "y ~ I(f)", "y ~ 0 + up(f):x", "y ~ x + (x|up(g))", "y ~ (0 + I(f)|g)",
+    "y ~ minmax(x) + (minmax(z)|g)", "y ~ scale(xb)", "y ~ center(xb) + (scale(xb)|g)", "y ~ I(np.log(x) * z)", "y ~ {center(x) + z}", "y ~ {x / np.sqrt(z)}", "y ~ scale(np.log(x) + z) + I(z - np.exp(x / 10))", "y ~ I(f)", "y ~ 0 + up(f):x", "y ~ x + (x|up(g))", "y ~ (0 + I(f)|g)",
 ]
 FIVE = [0, 1, 2, 3, 5]  # rows of c06.frame: all levels of f (b, c, a), both of g
 
@@ -65,8 +65,8 @@ def expand(unit):
     return unit
 
 
-def build(formula, df):
-    return c06.build(formula, df)
+def build(formula, df, na_action="drop"):
+    return c06.build(formula, df, na_action)
 
 
 def snapshot(dm, probe):
@@ -231,6 +231,14 @@ def check_case(case, acc):
             problems.append(("design-exists", f"{what}: raised {type(e).__name__}: {e}"))
             continue
         compare(ref, s2, perm, exact, what, problems)
+        if fam == "columns" and not nan and "unused" in what:
+            # missing values live in unused columns only: every na_action must give the same design
+            for na in ("error", "pass"):
+                acc.calls += 1
+                try:
+                    compare(ref, snapshot(build(f, d2, na), probe), perm, exact, what + f" with na_action={na!r}", problems)
+                except Exception as e:
+                    problems.append(("no-effect", f"{what} with na_action={na!r}: raised {type(e).__name__}: {e}"))
     acc.subcases(case, len(variants) - 1, True, "transformed-frames")
     nontriv = any(t in f for t in ("f", "g", "o", "C(", "scale", "center", "bs(", "poly", "minmax"))
     if problems:
